@@ -177,8 +177,9 @@ class TensorBase(abc.ABC, _protocols.TensorProtocol, _display.PrettyPrintable):
     @property
     def nbytes(self) -> int:
         """The number of bytes in the tensor."""
-        # Use math.ceil because when dtype is INT4, the itemsize is 0.5
-        return math.ceil(self.dtype.itemsize * self.size)
+        # Integer arithmetic: exact for every shape (itemsize is 0.25 / 0.5 for the 2- and 4-bit
+        # types, and a float product rounds the element count once it exceeds 2**53)
+        return (self.dtype.bitwidth * self.size + 7) // 8
 
     @property
     def metadata_props(self) -> dict[str, str]:
